@@ -922,3 +922,49 @@ mut("c19-header-prefix-dash", "C19", CG,
     """        let mut var = CompactString::const_new("HTTP_");""",
     """        let mut var = CompactString::const_new("HTTP-");""",
     "R19.6/header-mapping", "wrong prefix")
+
+# ---- C09 -------------------------------------------------------------------------------------------------
+mut("c09-writeable-without-final-check", "C09", A,
+    """                if !this.writeable && this.is_final_stream() {
+                    this.set_writeable();
+                }""",
+    """                if !this.writeable {
+                    this.set_writeable();
+                }""",
+    "R9.4/poll_read/writeable-guard", "writeable after the first of two input streams delivers data")
+mut("c09-writeable-unconditional-in-new", "C09", A,
+    """        if req.role().input_streams().len() <= 1 {
+            // Roles with 0 or 1 input stream(s) are writeable after reading the Params stream
+            req.set_writeable();
+        }""",
+    """        req.set_writeable();""",
+    "R9.4/new/writeable-guard", "Filter requests writeable before Stdin ended")
+mut("c09-drop-consume-stream", "C09", A,
+    """                let read = buf.write(avail).expect("writing into &mut [u8] should always succeed");
+                this.parser.consume_stream(read);
+                return Poll::Ready(Ok(read));""",
+    """                let read = buf.write(avail).expect("writing into &mut [u8] should always succeed");
+                return Poll::Ready(Ok(read));""",
+    "R9.", "buffered bytes delivered again by the next read")
+mut("c09-consume-whole-buffer", "C09", A,
+    """                this.parser.consume_stream(read);
+                return Poll::Ready(Ok(read));""",
+    """                this.parser.consume_stream(avail.len());
+                return Poll::Ready(Ok(read));""",
+    "R9.2", "bytes that did not fit the caller's buffer are dropped")
+mut("c09-remove-writeable-assert", "C09", A,
+    """        assert!(self.writeable, "must receive final input stream to become writeable");
+""", "",
+    "R9.5/writer-construction", "writers handed out before the final stream")
+mut("c09-first-instead-of-last", "C09", A,
+    """        let stream = self.role().input_streams().last().copied();""",
+    """        let stream = self.role().input_streams().first().copied();""",
+    "R9.6/writeable/selects-final-stream", "writeable() waits on the first stream")
+mut("c09-benign-inline-set-writeable", "C09", A,
+    """                if !this.writeable && this.is_final_stream() {
+                    this.set_writeable();
+                }""",
+    """                if !this.writeable && this.is_final_stream() {
+                    this.writeable = true;
+                }""",
+    None, "helper inlined")
